@@ -433,7 +433,7 @@ func c01TryDelivery(c *Check) {
 			appendsTo[o] = append(appendsTo[o], pt)
 		}
 	}
-	// which is the retry list? the one assigned to meta.To afterwards
+	// which is the retry list? the one assigned to meta.To afterwards; the other per-attempt list is the failed list
 	var retryObj, failedObj types.Object
 	ast.Inspect(r.FI.Decl.Body, func(n ast.Node) bool {
 		if as, ok := n.(*ast.AssignStmt); ok && len(as.Lhs) == 1 && len(as.Rhs) == 1 && isField(info, as.Lhs[0], "QueueMetadata", "To") {
@@ -441,15 +441,15 @@ func c01TryDelivery(c *Check) {
 				retryObj = o
 			}
 		}
-		if call, ok := n.(*ast.CallExpr); ok && isEmitDSN(info, call) && len(call.Args) == 3 {
-			if o := objOf(info, call.Args[2]); o != nil && appendsTo[o] != nil {
-				failedObj = o
-			}
-		}
 		return true
 	})
-	if retryObj == nil || failedObj == nil || retryObj == failedObj || len(appendsTo) != 2 {
-		c.Fail("R4", "tryDelivery:lists", loop.Pos(), "undecided: expected exactly two per-attempt lists (retry list assigned to the pending recipients, failed list handed to the report)")
+	for o := range appendsTo {
+		if o != retryObj {
+			failedObj = o
+		}
+	}
+	if retryObj == nil || failedObj == nil || len(appendsTo) != 2 {
+		c.Fail("R4", "tryDelivery:lists", loop.Pos(), "undecided: expected exactly two per-attempt lists filled in the classification loop (the retry list, assigned to the pending recipients, and the failed list)")
 		return
 	}
 	retryPts, failPts := appendsTo[retryObj], appendsTo[failedObj]
